@@ -28,7 +28,7 @@ CUR = {'ctx': None, 'case': None}
 
 
 def shards(tier, seed):
-    per = 250 if tier == 'quick' else 3500
+    per = 250 if tier == 'quick' else 25000
     budget = 40 if tier == 'quick' else 500
     return [{'kind': 'random', 'count': per, 'budget_s': budget, 'max_g': 12 if tier == 'quick' else 30}
             for _ in range(16)]
